@@ -135,6 +135,9 @@ func (c *lcClient) serveWork(alive bool) {
 	c.Offered = append(c.Offered, conn)
 	c.smu.Unlock()
 	if !alive {
+		c.smu.Lock()
+		c.offClosed[conn] = true
+		c.smu.Unlock()
 		conn.Close()
 		return
 	}
@@ -185,6 +188,13 @@ func (c *lcClient) runWork(conn net.Conn) {
 			}
 			body := "served-by " + id + " " + reqLine + "\n"
 			fmt.Fprintf(conn, "HTTP/1.1 200 OK\r\nContent-Type: text/plain\r\nX-Served-By: %s\r\nContent-Length: %d\r\n\r\n%s", id, len(body), body)
+		}
+	case "udp", "sudp":
+		// datagram work connection: frames only; stay silent and drain
+		for {
+			if _, _, err := readFrame(conn); err != nil {
+				return
+			}
 		}
 	default:
 		// identity line, then echo
